@@ -11,6 +11,7 @@ R3 (E-digest): a stored digest over the struct's own fields is computed last.
 
 NOT decided: round-trip equality itself, canonical forms, accepted-but-non-canonical inputs, byte-exact rebuilds of CDN files."""
 import re
+import collections
 from .facts import op_local, Slice
 from . import bounds
 
@@ -272,7 +273,61 @@ def r6_partition_loops(ctx, krate="cascette_formats", floor=1):
     ctx.floor(rule, n, floor, "partition loops over records in cascette-formats")
 
 
+def r8_presence_predicates(ctx, krate="cascette_formats", floor=2):
+    """whether an optional array is on the wire is ONE predicate, evaluated by the reader and by the writer: every body that performs I/O and branches on a
+    workspace `has_*` / `is_*` accessor of a flags value decides from that accessor alone, or all of them conjoin it with the same further inputs. A reader that
+    also asks a parameter (`has_named_files && flags.has_name_hashes()`) while the writer does not (or the other way round) skips / invents the array for
+    exactly the inputs where the extra condition is false."""
+    rule = "C08.R8"
+    ctx.rule(rule, "reader and writer siblings that branch on the same flags accessor (has_* / is_*) conjoin it with the same further parameters (sibling agreement)")
+    IO = re.compile(r"::(read_le|read_be|write_le|write_be|read_exact|write_all|read_options|write_options|read_u\d+\w*|write_u\d+\w*)$|\bVec::<T, A>::(push|extend_from_slice)$")
+    groups = {}
+    for b in ctx.prog.bodies.values():
+        if b.krate != krate or b.expn or b.root:
+            continue
+        if not any(IO.search(c.name) or IO.search(c.orig_name or "") for c in b.calls):
+            continue
+        for bb, blk in enumerate(b.blocks):
+            t = blk["t"]
+            if t["k"] != "Switch" or bb not in b.live_blocks() or op_local(t["d"]) is None:
+                continue
+            sl = Slice(b, [op_local(t["d"])], transparent=True)
+            accs = [c for c in sl.calls if c.local and c.id in ctx.prog.bodies and (ctx.prog.bodies[c.id].local_ty(0) or "") == "bool" and
+                    re.match(r"^(has|is)_", ctx.prog.bodies[c.id].item or "") and "Flags" in (ctx.prog.bodies[c.id].rec.get("self_ty") or "")]
+            for a in accs:
+                ex = {b.local_name(x) for x in sl.args if b.local_name(x) and (b.local_ty(x) or "") == "bool"}
+                # control dependence: `p && flags.has_x()` evaluates the accessor only on the true edge of a test of p
+                for sb, sblk in enumerate(b.blocks):
+                    st_ = sblk["t"]
+                    if st_["k"] != "Switch" or sb not in b.live_blocks() or op_local(st_["d"]) is None or sb == bb:
+                        continue
+                    succs = [x for x in b.succ[sb]]
+                    reach = [a.bb in (b.reachable([x]) | {x}) for x in succs]
+                    if any(reach) and not all(reach):
+                        dsl = Slice(b, [op_local(st_["d"])], transparent=None)
+                        ex |= {b.local_name(x) for x in (dsl.args | ({op_local(st_["d"])} & set(range(1, b.argc + 1)))) if b.local_name(x) and (b.local_ty(x) or "") == "bool"}
+                extra = sorted(ex)
+                groups.setdefault((b.file, a.id), []).append((b, tuple(extra), t.get("l", 0)))
+    n = 0
+    for (f, acc), uses in sorted(groups.items(), key=lambda kv: str(kv[0])):
+        bodies = {u[0].id for u in uses}
+        if len(bodies) < 2:
+            continue
+        ref = collections.Counter(u[1] for u in uses).most_common(1)[0][0]
+        for (b, extra, line) in uses:
+            n += 1
+            ctx.saw(b)
+            ctx.check(extra == ref, rule, [b.id, acc.split("::")[-1], "same-condition"], "branches on %s() %s" % (acc.split("::")[-1], ("and " + "/".join(extra)) if extra else "alone"),
+                      "%s decides the presence of an optional part from %s() AND %s, while its sibling(s) in %s decide from %s: for inputs where the extra condition is "
+                      "false one side reads / writes the part and the other does not - the stream is mis-framed (phantom blocks, lost records) although parse "
+                      "returns Ok" % (ctx._stable(b.id), acc.split("::")[-1], "/".join(extra) or "nothing else", f.split("src/")[-1],
+                                      (acc.split("::")[-1] + "() and " + "/".join(ref)) if ref else acc.split("::")[-1] + "() alone"),
+                      "%s:%s" % (b.file, line), sample={"in": b.id, "accessor": acc, "extra_inputs": list(extra)})
+    ctx.floor(rule, n, floor, "I/O bodies that branch on a shared flags accessor")
+
+
 def run(ctx):
+    r8_presence_predicates(ctx)
     # E-names (rules/siblingfield.py): a local named after one field of a struct is not computed from its sibling
     from . import siblingfield
     siblingfield.rule_names(ctx, "C08.R7", ["cascette_formats"])
